@@ -771,8 +771,12 @@ def r_group_helper(ctx: Ctx, rule: str):
             return not ((a in tests or a in iters) and lab[0] == "F")
 
         r = reach([g.entry], ef)
-        rep.ob(rule, "the helper returns only after every id of the register was visited", (g.exit not in r) if (tests or iters) else None, func=f, construct="member loop",
-               detail="" if g.exit not in r else "the normal exit is reachable without the register having been exhausted (break / early return)")
+        counted = (not tests and not iters) and any(tk_.loops for tk_ in takes)
+        rep.ob(rule, "the helper returns only after every id of the register was visited", (g.exit not in r) if (tests or iters) else (False if counted else None), func=f,
+               construct="member loop",
+               detail=("the ids are taken in a loop that neither tests the register nor iterates over it: how often it runs was fixed by a count taken beforehand, "
+                       "not by the register running empty - ids whose turn burns an iteration (ended, unflushed tasks) leave running members un-cancelled") if counted else
+                      ("" if g.exit not in r else "the normal exit is reachable without the register having been exhausted (break / early return)"))
         rexits = [x for x in g.raise_exits.values() if x.pred]
         rep.ob(rule, "a member that is no longer running does not abort the group cancellation", not rexits, func=f, construct="raising exits",
                detail=str(sorted(x.tok[0] for x in rexits)))
